@@ -516,10 +516,10 @@ impl Router {
                     // reset the group cursor
                     if let Some(group_name) = &request.group {
                         // TODO: Test this more
-                        self.shared_subscriptions
-                            .get_mut(group_name)
-                            .expect("group must exists")
-                            .cursor = *cursor;
+                        // The group is gone already when this connection was its last member
+                        if let Some(group) = self.shared_subscriptions.get_mut(group_name) {
+                            group.cursor = *cursor;
+                        }
                     }
                 }
             }
